@@ -15,6 +15,7 @@ import (
 	"path/filepath"
 	"regexp"
 	"sort"
+	"strconv"
 	"strings"
 	"sync"
 	"syscall"
@@ -245,6 +246,7 @@ func runC11(c *vc.Ctx) error {
 	maxRelaunch := c.Pick(4, 12)
 	var avoidMu sync.Mutex
 	avoided := map[string]bool{}
+	avoidedKinds := map[string]bool{}
 	for _, n := range strings.Split(os.Getenv("VERIF_C11_AVOID"), ",") { // debugging aid: start with names left out
 		if n = strings.TrimSpace(n); n != "" {
 			avoided[n] = true
@@ -258,12 +260,16 @@ func runC11(c *vc.Ctx) error {
 			cr := p.cr
 			for attempt := 0; ; attempt++ {
 				avoidMu.Lock()
-				cr.conf.Avoid = nil
+				cr.conf.Avoid, cr.conf.AvoidKinds = nil, nil
 				for n := range avoided {
 					cr.conf.Avoid = append(cr.conf.Avoid, n)
 				}
+				for n := range avoidedKinds {
+					cr.conf.AvoidKinds = append(cr.conf.AvoidKinds, n)
+				}
 				avoidMu.Unlock()
 				sort.Strings(cr.conf.Avoid)
+				sort.Strings(cr.conf.AvoidKinds)
 				if err := runChild(cr, p.watchdog); err != nil {
 					c.Inconclusive(cr.name + ": " + err.Error())
 					return
@@ -276,7 +282,11 @@ func runC11(c *vc.Ctx) error {
 				// the child died: go on with the rest of its budget on a fresh
 				// server, leaving out the command that killed it
 				avoidMu.Lock()
-				avoided[culprit] = true
+				if strings.HasPrefix(culprit, "kind:") {
+					avoidedKinds[culprit[5:]] = true
+				} else {
+					avoided[culprit] = true
+				}
 				avoidMu.Unlock()
 				c.Ev.Count("children_relaunched_after_death", 1)
 				next := &childRun{name: fmt.Sprintf("%s+%d", p.cr.name, attempt+1), variant: cr.variant, conf: cr.conf, dir: filepath.Join(c.Scratch, fmt.Sprintf("%s+%d", p.cr.name, attempt+1))}
@@ -308,6 +318,9 @@ func runC11(c *vc.Ctx) error {
 		av = append(av, n)
 	}
 	sort.Strings(av)
+	for n := range avoidedKinds {
+		av = append(av, "mutation kind "+n)
+	}
 	c.Ev.Set("commands_left_out_after_they_killed_a_child", av)
 	flushAgg(c)
 	return nil
@@ -358,6 +371,7 @@ func c11Judge(c *vc.Ctx, cr *childRun, names []RegisteredCmd) string {
 	// everything since the last snapshot, including the hostile entries)
 	rs := &childRun{name: cr.name + "-restart", variant: cr.variant, dir: cr.dir, conf: cr.conf}
 	rs.conf.Mode = "canary"
+	rs.conf.HoldS = 11 // past one round of the periodic loops (metrics every 10 s)
 	if err := runChild(rs, 5*time.Minute); err != nil {
 		c.Inconclusive(rs.name + ": " + err.Error())
 		return ""
@@ -510,6 +524,41 @@ func culpritFromStderr(path string) string {
 	return ""
 }
 
+var repoFrameRe = regexp.MustCompile(`github\.com/youzan/ZanRedisDB/([\w/]+)\.(\(\*?\w+\)\.)?(\w+)`)
+
+// crashSite returns the innermost repo function of the crashing goroutine as
+// "pkg.Func" (e.g. server.metricLoop): the call site of a death that no
+// command handler frame explains.
+func crashSite(path string) string {
+	for _, ln := range panicBlock(path, 40) {
+		if strings.HasPrefix(ln, "\t") || strings.HasPrefix(ln, "created by") {
+			continue
+		}
+		if m := repoFrameRe.FindStringSubmatch(ln); m != nil {
+			pkg := m[1]
+			if i := strings.LastIndexByte(pkg, '/'); i >= 0 {
+				pkg = pkg[i+1:]
+			}
+			return pkg + "." + m[3]
+		}
+	}
+	return ""
+}
+
+var quotedRe = regexp.MustCompile(`"((?:[^"\\]|\\.)*)"`)
+
+// valuesEchoedByPanic: byte strings quoted in the panic message (a panic often
+// echoes the offending input), used to find the command in the log.
+func valuesEchoedByPanic(panicLine string) [][]byte {
+	var out [][]byte
+	for _, m := range quotedRe.FindAllStringSubmatch(panicLine, -1) {
+		if s, err := strconv.Unquote(`"` + m[1] + `"`); err == nil && len(s) > 0 {
+			out = append(out, []byte(s))
+		}
+	}
+	return out
+}
+
 // panicBlock returns the n lines starting at the first panic / fatal error line
 // of a stderr file (with GOTRACEBACK=all the tail is other goroutines).
 func panicBlock(path string, n int) []string {
@@ -599,6 +648,50 @@ func c11ProcessDied(c *vc.Ctx, cr *childRun, names []RegisteredCmd) string {
 	sort.Slice(inflight, func(i, j int) bool { return inflight[i].Seq > inflight[j].Seq })
 	panicLine := firstPanicLine(cr.stderrPath())
 	culprit := culpritFromStderr(cr.stderrPath())
+	site := ""
+	hold := 0
+	if culprit == "" {
+		// no command handler on the crashing stack (periodic loop, post-processing
+		// of the apply loop, ...): name the call site, and look for the command
+		// through what the panic message echoes
+		site = crashSite(cr.stderrPath())
+		hold = 12 // periodic loops (metrics: 10 s) need time to run into it again
+		isWrite := map[string]bool{}
+		for _, rc := range names {
+			if isWriteKind(rc.Kinds) {
+				isWrite[rc.Name] = true
+			}
+		}
+		for _, val := range valuesEchoedByPanic(panicLine) {
+			seen := map[string]bool{}
+			var hits []logLine
+			for i := len(all) - 1; i >= 0 && len(hits) < 40; i-- {
+				argv, err := DecodeArgv(all[i].Argv)
+				if err != nil || len(argv) < 2 {
+					continue
+				}
+				hit := false
+				for _, a := range argv {
+					if bytes.Contains(a, val) {
+						hit = true
+					}
+				}
+				key := strings.Join(all[i].Argv, " ")
+				if hit && !seen[key] {
+					seen[key] = true
+					hits = append(hits, all[i])
+				}
+			}
+			// writes whose other arguments are untouched are the likely creators of the offending state
+			sort.SliceStable(hits, func(i, j int) bool {
+				return isWrite[hits[i].Name] && !isWrite[hits[j].Name]
+			})
+			if len(hits) > 6 {
+				hits = hits[:6]
+			}
+			inflight = append(hits, inflight...)
+		}
+	}
 
 	// 1. restart on the same data directory
 	poisoned := false
@@ -606,6 +699,7 @@ func c11ProcessDied(c *vc.Ctx, cr *childRun, names []RegisteredCmd) string {
 	if cr.conf.Mode == "fuzz" || cr.conf.Mode == "replay" || cr.conf.Mode == "batch" {
 		rs := &childRun{name: cr.name + "-restart", variant: cr.variant, dir: cr.dir, conf: cr.conf}
 		rs.conf.Mode = "canary"
+		rs.conf.HoldS = 11
 		if err := runChild(rs, 5*time.Minute); err == nil {
 			c.Ev.Count("restarts_performed", 1)
 			reportRaces(c, rs)
@@ -643,6 +737,7 @@ func c11ProcessDied(c *vc.Ctx, cr *childRun, names []RegisteredCmd) string {
 			rp := &childRun{name: fmt.Sprintf("%s-shrink%d", cr.name, i), variant: cr.variant, dir: filepath.Join(c.Scratch, fmt.Sprintf("%s-shrink%d", cr.name, i)), conf: cr.conf}
 			rp.conf.Mode = "replay"
 			rp.conf.Replay = [][]string{ll.Argv}
+			rp.conf.HoldS = hold
 			if err := runChild(rp, 4*time.Minute); err != nil {
 				return
 			}
@@ -663,15 +758,23 @@ func c11ProcessDied(c *vc.Ctx, cr *childRun, names []RegisteredCmd) string {
 	if minimal != nil {
 		culprit = strings.ToLower(minimal.Name) // the replayed single command is the better attribution
 	}
+	sigName := culprit
+	if site != "" {
+		sigName = site // the death is not in a command handler: the call site classifies it
+	}
 	if culprit == "" && len(inflight) > 0 {
 		culprit = strings.ToLower(inflight[0].Name)
 	}
 	if culprit == "" {
 		culprit = "unknown"
 	}
-	sig := "process-died/" + culprit
-	if poisoned {
-		sig = "restart-poisoned/" + culprit
+	if sigName == "" {
+		sigName = culprit
+	}
+	sig := "process-died/" + sigName
+	if poisoned && site == "" {
+		// (deaths classified by a call site keep one signature; the restart outcome is in the summary)
+		sig = "restart-poisoned/" + sigName
 	}
 	w := map[string]interface{}{
 		"child":             map[string]interface{}{"mode": cr.conf.Mode, "engine": cr.conf.Engine, "build": cr.variant, "seed": cr.conf.Seed, "index": cr.conf.Index},
@@ -703,6 +806,13 @@ func c11ProcessDied(c *vc.Ctx, cr *childRun, names []RegisteredCmd) string {
 		summary += fmt.Sprintf("no single in-flight command reproduces it alone; in flight: %v", lastCommandsHuman(cr.dir, 1))
 	}
 	c.Violation(sig, summary, w)
+	if strings.Contains(panicLine, "is not valid UTF-8") {
+		return "kind:bintable" // the input class of this death, whatever command carried it
+	}
+	if site != "" && minimal != nil {
+		// any command can carry the offending input: leave out the mutation kind
+		return "kind:" + minimal.Kind
+	}
 	return culprit
 }
 
@@ -885,8 +995,12 @@ func replayC11(c *vc.Ctx, names []RegisteredCmd) error {
 	if len(cmds) == 0 {
 		return fmt.Errorf("witness has no command list to replay")
 	}
+	hold := 0
+	if f, ok := doc.Witness["hold_s"].(float64); ok {
+		hold = int(f)
+	}
 	cr := &childRun{name: "replay", variant: "race", dir: filepath.Join(c.Scratch, "replay"),
-		conf: childConf{Mode: "replay", Engine: engine, Seed: c.Seed, Names: names, Replay: cmds}}
+		conf: childConf{Mode: "replay", Engine: engine, Seed: c.Seed, Names: names, Replay: cmds, HoldS: hold}}
 	if err := runChild(cr, 5*time.Minute); err != nil {
 		return err
 	}
